@@ -107,8 +107,15 @@ def addFragmentMetadata (env : Env) (i : Inst) (f : Bytes) (idx orig bs : Nat) (
 /-- put a payload into a fresh fragment buffer. -/
 def fragmentWithPayload (p : Bytes) : Bytes := wrBytes (freshFragment p.length) Hdr.size p
 
+/-- The size guard of `liberasurecode_encode`: all internal size arithmetic is done in C `int`, so an
+    input whose aligned length plus a fragment header does not fit is refused
+    (`orig_data_size > INT_MAX - get_aligned_data_size(instance, 1) - sizeof(fragment_header_t)`). -/
+def encodeTooLarge (i : Inst) (len : Nat) : Bool :=
+  decide (len > 2147483647 - alignedSize i 1 - Hdr.size)
+
 /-- `liberasurecode_encode` after argument checks: the k+m fragments. -/
-def encode (env : Env) (be : Backend) (i : Inst) (data : Bytes) : R (List Bytes) := do
+def encode (env : Env) (be : Backend) (i : Inst) (data : Bytes) : R (List Bytes) :=
+  if encodeTooLarge i data.length then failRc EINVALIDPARAMS else do
   let len := data.length
   let bs := alignedSize i len / i.k
   let dataP := splitLoop i.k bs data
